@@ -198,7 +198,7 @@ def lemmas(tier):
     import sys
     import time
 
-    sys.path.insert(0, "/repo")
+    sys.path.insert(0, __import__("os").environ.get("VERIF_REPO_ROOT", "/repo"))
     t0 = time.time()
     out = {"name": "ws-mask-table", "solver": "exhaustive-concrete", "status": "unsat"}
     try:
